@@ -220,9 +220,9 @@ pub fn def() -> PropertyDef {
 		rule: "Certificates, CSRs, CRLs and SubjectPublicKeyInfos generated over the C02/C07/C08 parameter spaces are walked by the harness's strict schema-aware DER validator from the outermost element into every extension value (minimal lengths/INTEGERs/OIDs, BOOLEAN 0xFF, DEFAULTs absent, BIT STRING padding and named-bit lists, SET OF order, string alphabets, RFC 5280 time forms, no trailing bytes); caller-supplied DER is compared byte for byte. Sweeps: 511 key-usage subsets, every 0/1/2-byte serial and CRL number (2-byte: 5 leading patterns in quick, all in thorough) plus boundary 3/4/20/21/22-byte values, every ordering of <= 4 CSR attributes. Non-trivial = artefact contains a value-dependent form (key usage, basic constraints, explicit serial, offset time, custom content, >= 2 attributes, CRL entries).",
 		assumptions: vec!["the harness DER validator implements X.690 §10-11 and the RFC 5280 ASN.1 module correctly (unit-tested on positive and negative vectors)"],
 		subs: vec![
-			prop_sub("cert", 16_000, 1_000_000, || cert_case(CertGenOpts::FULL, true), check_cert_case),
-			prop_sub("csr", 6_000, 300_000, || csr_case(true), check_csr_case),
-			prop_sub("crl", 6_000, 300_000, || crl_case(false, true), check_crl_case),
+			prop_sub("cert", 64_000, 1_000_000, || cert_case(CertGenOpts::FULL, true), check_cert_case),
+			prop_sub("csr", 24_000, 300_000, || csr_case(true), check_csr_case),
+			prop_sub("crl", 24_000, 300_000, || crl_case(false, true), check_crl_case),
 			sweep_sub("ku-sweep", |_| crate::props::c02::ku_sweep_cases(), check_cert_case),
 			sweep_sub("isca-sweep", |_| {
 				let mut v = crate::props::c02::pathlen_sweep_cases();
